@@ -364,6 +364,16 @@ class SList:
                     del tr[k2]
                 elif same is None:
                     raise Unsupported('list slot written while another slot may hold a transient array')
+        tag = self.__dict__.get('role_tag')
+        if tag is not None and isinstance(val, SArr):
+            r = val.__dict__.get('roles')
+            if r is None and len(val.shape) >= len(tag):
+                val.roles = tuple(tag) + (None,) * (len(val.shape) - len(tag))      # declared by the contract for this list
+            elif r is not None and any(not (x == y or (x, y) == ('r', 'k')) for x, y in zip(r[:len(tag)], tag)):
+                # (an operator applied to a ket leg - its row axis - is a ket leg again)
+                del self.__dict__['role_tag']                                       # an element with other roles: nothing is claimed any more
+            elif r is not None:
+                val.roles = tuple(tag) + tuple(r[len(tag):])
         c = as_conc(idx)
         if self.items is not None and c is not None:
             self.items[c] = val
@@ -377,7 +387,7 @@ class SList:
         """immutable view (same ref) for old() references"""
         v = SList(self.ref, self.length, self.fn, None if self.items is None else list(self.items), self.kind)
         v.transients = dict(getattr(self, 'transients', {}) or {})
-        for extra in ('slice_of', 'split_points'):
+        for extra in ('slice_of', 'split_points', 'role_tag'):
             if extra in self.__dict__:
                 setattr(v, extra, self.__dict__[extra])
         return v
